@@ -554,9 +554,9 @@ func init() {
 		Simulated: []string{"host functions op/choose/log and their failures", "reference model of try/catch/finally"},
 		Runs: func(tier string) int {
 			if tier == "thorough" {
-				return 3000000
+				return 40000000
 			}
-			return 24000
+			return 400000
 		},
 		WallCap: func(tier string) float64 {
 			if tier == "thorough" {
